@@ -13,6 +13,12 @@ package checks
 //   - struct by struct, the loader's key set equals the schema's property set;
 //   - a rule entry with no recognised action is refused; each action key
 //     yields exactly one rule.
+//
+// Compiler-pass and veneer documents are submitted through every route by which
+// cog reads such a file (reader, readers, file names, a generated pipeline),
+// at a position among valid sibling files: see c20_routes_test.go. The same
+// oracles apply to what the route answers, plus: an accepted set of files
+// yields as many passes / rules as its documents declare entries.
 
 import (
 	"bytes"
@@ -48,6 +54,22 @@ type c20Case struct {
 	InjectedType string `json:"injected_type,omitempty"`
 	// Expect: "" | "reject-empty-rule" | "one-rule"
 	Expect string `json:"expect,omitempty"`
+
+	// Route: how cog is made to read the document ("" = the loader's plain
+	// entry point; readers | files | pipeline: see c20_routes_test.go).
+	Route string `json:"route,omitempty"`
+	// Siblings: valid files of the same kind loaded in the same call; Pos: the
+	// position of the document among them.
+	Siblings []string `json:"siblings,omitempty"`
+	Pos      int      `json:"pos,omitempty"`
+	// pipeline route. Slots, per file in order: compiler 0 = transformations.schemas,
+	// 1 / 2 = transformations of input 0 / 1; veneers: directory 0 / 1.
+	// Kinds: the pipeline's inputs; Lang: its output language; Interp: paths
+	// written as %__config_dir%/... and the pipeline loaded with parameters.
+	Slots  []int    `json:"slots,omitempty"`
+	Kinds  []string `json:"kinds,omitempty"`
+	Lang   string   `json:"lang,omitempty"`
+	Interp bool     `json:"interp,omitempty"`
 }
 
 // ---- generic document tree -------------------------------------------------
@@ -423,8 +445,8 @@ func c20Load(loader string, text string) (rules int, err error) {
 			return -1, e
 		}
 		defer os.Remove(path)
-		_, e := cogyaml.NewVeneersLoader().RewriterFrom([]string{path}, rewrite.Config{})
-		return -1, e
+		rw, e := cogyaml.NewVeneersLoader().RewriterFrom([]string{path}, rewrite.Config{})
+		return c20RewriterRules(rw), e
 	}
 	return -1, fmt.Errorf("unknown loader %s", loader)
 }
@@ -489,11 +511,27 @@ func c20Check(c c20Case) []vlib.Violation {
 	if err != nil {
 		return []vlib.Violation{vlib.V("harness:schema", "cannot load published schema: %v", err)}
 	}
+	if c.Loader == "pipeline" {
+		c.Route = ""
+	}
+	via := ""
+	if c.Route != "" {
+		via = ":via-" + c.Route
+	}
 	var rules int
 	var lerr error
-	sig, msg, panicked := vlib.Guard(func() { rules, lerr = c20Load(c.Loader, c.YAML) })
+	sig, msg, panicked := vlib.Guard(func() {
+		if c.Route == "" {
+			rules, lerr = c20Load(c.Loader, c.YAML)
+		} else {
+			rules, lerr = c20LoadVia(c, true)
+		}
+	})
 	if panicked {
 		return []vlib.Violation{vlib.V("skip:panic:"+sig, "loader panicked: %s", msg)}
+	}
+	if lerr != nil && strings.HasPrefix(lerr.Error(), "harness:") {
+		return []vlib.Violation{vlib.V("harness:route", "the route %q could not be set up: %v", c.Route, lerr)}
 	}
 	generic, gerr := yamlToGeneric(c.YAML)
 	if gerr != nil {
@@ -506,23 +544,50 @@ func c20Check(c c20Case) []vlib.Violation {
 	if lerr != nil {
 		lmsg = lerr.Error()
 	}
+	// what the route was given besides the document: the rules its siblings declare
+	siblingRules, countable := 0, true
+	for _, sib := range c.Siblings {
+		if c.Route == "" {
+			break
+		}
+		n, ok := c20DeclaredRules(c.Loader, sib)
+		if !ok {
+			countable = false
+		}
+		siblingRules += n
+	}
+	// a refusal only counts if the route accepts the siblings alone
+	controlled := func() bool {
+		if c.Route == "" || lerr == nil {
+			return true
+		}
+		var cerr error
+		_, _, cpanic := vlib.Guard(func() { _, cerr = c20LoadVia(c, false) })
+		if cpanic || cerr != nil {
+			vs = append(vs, vlib.V("harness:control"+via, "the route %q fails without the document under test (siblings alone): %v", c.Route, cerr))
+			return false
+		}
+		return true
+	}
+	emptyEntries := c20EmptyEntries(c.Loader, generic)
 	switch {
 	case c.Expect == "reject-empty-rule":
 		if lerr == nil {
-			vs = append(vs, vlib.V("empty-rule-accepted:"+c.Loader+":"+c.InjectedType, "a rule entry with no recognised action was accepted: %s", strings.TrimSpace(c.YAML)))
+			vs = append(vs, vlib.V("empty-rule-accepted:"+c.Loader+":"+c.InjectedType+via, "a rule entry with no recognised action was accepted%s: %s", c20RouteText(c), strings.TrimSpace(c.YAML)))
 		}
+		controlled()
 	case c.Expect == "one-rule":
 		if lerr != nil && (strings.Contains(lmsg, "empty compiler pass") || strings.Contains(lmsg, "empty rule")) {
-			vs = append(vs, vlib.V("action-not-recognised:"+c.Loader+":"+c.InjectedType, "the action key %s is part of the configuration language but the loader treats the entry as empty: %v", c.InjectedType, lerr))
+			vs = append(vs, vlib.V("action-not-recognised:"+c.Loader+":"+c.InjectedType+via, "the action key %s is part of the configuration language but the loader treats the entry as empty: %v", c.InjectedType, lerr))
 		}
-		if lerr == nil && rules >= 0 && rules != 1 {
-			vs = append(vs, vlib.V("action-yields-no-rule:"+c.Loader+":"+c.InjectedType, "one %s entry produced %d passes", c.InjectedType, rules))
+		if lerr == nil && rules >= 0 && countable && rules != 1+siblingRules {
+			vs = append(vs, vlib.V("action-yields-no-rule:"+c.Loader+":"+c.InjectedType+via, "one %s entry (and siblings declaring %d rules) produced %d passes / rules%s", c.InjectedType, siblingRules, rules, c20RouteText(c)))
 		}
 	case c.Injected:
 		if lerr == nil {
-			vs = append(vs, vlib.V("loader-ignores-unknown-key:"+c.Loader+":"+c.InjectedType, "an unknown key at %s (a %s) was silently accepted by the %s loader", c.InjectedAt, c.InjectedType, c.Loader))
+			vs = append(vs, vlib.V("loader-ignores-unknown-key:"+c.Loader+":"+c.InjectedType+via, "an unknown key at %s (a %s) was silently accepted by the %s loader%s", c.InjectedAt, c.InjectedType, c.Loader, c20RouteText(c)))
 		} else if !strings.Contains(lmsg, c20Unknown) {
-			vs = append(vs, vlib.V("loader-ignores-unknown-key:"+c.Loader+":"+c.InjectedType, "an unknown key at %s (a %s) was not reported by the %s loader (it failed with: %s)", c.InjectedAt, c.InjectedType, c.Loader, firstLine(lmsg)))
+			vs = append(vs, vlib.V("loader-ignores-unknown-key:"+c.Loader+":"+c.InjectedType+via, "an unknown key at %s (a %s) was not reported by the %s loader%s (it failed with: %s)", c.InjectedAt, c.InjectedType, c.Loader, c20RouteText(c), firstLine(lmsg)))
 		}
 		found := false
 		for _, e := range apErrs {
@@ -540,10 +605,67 @@ func c20Check(c c20Case) []vlib.Violation {
 			}
 		}
 		if lerr != nil && strings.Contains(lmsg, "not found in type") {
-			vs = append(vs, vlib.V("loader-rejects-schema-key:"+c.Loader+":"+notFoundKey(lmsg), "a document built from %s (published keys only) is refused by the loader: %s", c20SchemaFiles[c.Loader], firstLine(strings.ReplaceAll(lmsg, "\n", " | "))))
+			vs = append(vs, vlib.V("loader-rejects-schema-key:"+c.Loader+":"+notFoundKey(lmsg)+via, "a document built from %s (published keys only) is refused by the loader%s: %s", c20SchemaFiles[c.Loader], c20RouteText(c), firstLine(strings.ReplaceAll(lmsg, "\n", " | "))))
+		}
+		// an entry of a rule list that holds no key at all has no recognised action
+		if len(emptyEntries) > 0 {
+			if lerr == nil {
+				vs = append(vs, vlib.V("empty-rule-accepted:"+c.Loader+":"+c20ListOf(emptyEntries[0])+via, "the rule entry %s has no recognised action but the document was accepted%s: %s", emptyEntries[0], c20RouteText(c), firstLine(c.YAML)))
+			}
+			controlled()
+		}
+		// every declared rule entry of an accepted document yields one pass / rule
+		if declared, ok := c20DeclaredRules(c.Loader, c.YAML); ok && countable && lerr == nil && rules >= 0 && rules != declared+siblingRules {
+			vs = append(vs, vlib.V("rules-dropped:"+c.Loader+via, "the document declares %d rule entries and its siblings %d, the loader accepted them%s and produced %d passes / rules", declared, siblingRules, c20RouteText(c), rules))
 		}
 	}
 	return vs
+}
+
+func c20RouteText(c c20Case) string {
+	if c.Route == "" {
+		return ""
+	}
+	extra := ""
+	if c.Route == "pipeline" {
+		n := c
+		c20NormalizeRoute(&n)
+		extra = fmt.Sprintf(", slots %v, inputs %v, output %s", n.Slots, n.Kinds, n.Lang)
+	}
+	return fmt.Sprintf(" through the route %q (file %d of %d%s)", c.Route, c.Pos+1, len(c.Siblings)+1, extra)
+}
+
+func c20ListOf(entry string) string {
+	if i := strings.IndexByte(entry, '['); i >= 0 {
+		return entry[:i]
+	}
+	return entry
+}
+
+// c20EmptyEntries lists the entries of passes / builders / options that are
+// mappings without any key ("passes[2]").
+func c20EmptyEntries(loader string, generic any) []string {
+	m, ok := generic.(map[string]any)
+	if !ok {
+		return nil
+	}
+	var keys []string
+	switch loader {
+	case "compiler":
+		keys = []string{"passes"}
+	case "veneers":
+		keys = []string{"builders", "options"}
+	}
+	var out []string
+	for _, k := range keys {
+		list, _ := m[k].([]any)
+		for i, e := range list {
+			if em, isMap := e.(map[string]any); isMap && len(em) == 0 {
+				out = append(out, fmt.Sprintf("%s[%d]", k, i))
+			}
+		}
+	}
+	return out
 }
 
 func firstLine(s string) string {
@@ -672,11 +794,18 @@ func TestC20(t *testing.T) {
 	run := vlib.Begin(t, "C20")
 	defer run.Finish(t)
 	run.Describe(
-		"Enumerated completely: (B) struct by struct, yaml.v3's key set of every type reachable from codegen.Pipeline / yaml.Compiler / yaml.Veneers vs the property set (and additionalProperties:false) of the matching definition in schemas/*.json; (A) the full instance of every rule kind built from the published schema must not trip yaml's unknown-field error, and the full instance built from the Go types must not trip an additionalProperties rule; (C) one unknown key injected at EVERY closed mapping node of those full instances must be refused by the loader with an error naming the key and by the schema at that node; (D) `{}` entries in passes/builders/options are refused and every action key yields one rule. Generated with rapid: random sub-documents (each key kept with probability 2/3, lists of 0-2 entries) from either source with a random injection node. Non-trivial: an injection below the top level, or a base document with >= 2 nesting levels; distinct by (loader, document).",
+		"Enumerated completely: (B) struct by struct, yaml.v3's key set of every type reachable from codegen.Pipeline / yaml.Compiler / yaml.Veneers vs the property set (and additionalProperties:false) of the matching definition in schemas/*.json; (A) the full instance of every rule kind built from the published schema must not trip yaml's unknown-field error, and the full instance built from the Go types must not trip an additionalProperties rule; (C) one unknown key injected at EVERY closed mapping node of those full instances must be refused by the loader with an error naming the key and by the schema at that node; (D) `{}` entries in passes/builders/options are refused and every action key yields one rule. ROUTES: a schema-transformation / builder-transformation file is not only handed to the loader's plain entry point (CompilerLoader.Load on a reader, VeneersLoader.RewriterFrom on one file) but read the ways cog reads it: CompilerLoader.LoadAll (readers), CompilerLoader.PassesFrom / VeneersLoader.RewriterFrom on a list of file names, and a generated pipeline file (PipelineFromFile, then Pipeline.LoadSchemas for passes listed under transformations.schemas and under the transformations of 1-2 jsonschema / openapi / cue inputs, Pipeline.Run with builders in one of the seven output languages for veneers spread over 1-2 transformations.builders directories; paths absolute or written with %__config_dir% and loaded with parameters), each time at a position among 0-2 valid sibling files (every action key's valid instance is a sibling candidate). Every injection node of (C) on compiler / veneers documents and every case of (D) is repeated through each route (alone, after a sibling, before a sibling). Oracle through a route: the same as through the plain entry point (an injected key is named by the error the route returns; an entry with no action makes the route fail while the siblings alone pass — the control —; a published-keys-only document is not refused for an unknown field), plus counting: an accepted document yields as many passes / rewrite rules as it declares entries, siblings included (LoadAll / PassesFrom return them, the Rewriter's rule lists are counted by reflection). Generated with rapid: random sub-documents (each key kept with probability 2/3, lists of 0-2 entries) from either source, with a random injection node, or with an empty `{}` / unknown-key-only entry inserted at a random index of a rule list next to real entries, through a random route. Non-trivial: an injection below the top level, an inserted entry, or a base document with >= 2 nesting levels; distinct by (loader, route and its layout, document).",
 		"free-form maps (parameters, templates_data, defaults, hints, composition_map, rename_options, ...) are exempt from unknown-key injection on both sides",
 		"semantic post-validation of the loaders (reference formats, exactly one selector) is not judged: only errors naming an unknown field count, and an injected key must be named in the loader's error",
 		"the santhosh-tekuri/jsonschema validator (draft 2020-12) is trusted as the reader of schemas/*.json",
+		"null rule entries (listed finding) are only submitted to the plain entry points; the routes are given `{}` and unknown-key-only entries",
+		"through the pipeline route nothing is asked of a valid document beyond 'no unknown-field error' (its passes / veneers are applied to a small fixed schema and may fail there for reasons of their own); sibling files that make the pipeline fail on their own are dropped from the case by the generator (counter pipeline_siblings_dropped)",
 	)
+	defer func() {
+		if dir, err := c20WorkDir(); err == nil {
+			_ = os.RemoveAll(dir)
+		}
+	}()
 	if vlib.RunReplay(t, run, c20Check) {
 		return
 	}
@@ -689,6 +818,9 @@ func TestC20(t *testing.T) {
 		return true
 	}
 	always := func(int) int { return 1 }
+	evalKey := func(c c20Case) uint64 {
+		return vlib.HashBytes([]byte(c.Loader), []byte(c.YAML), []byte(c20RouteText(c)), []byte(strings.Join(c.Siblings, "\x00")), []byte(fmt.Sprint(c.Interp)))
+	}
 
 	// (B) key sets, type by type
 	for loader, rt := range c20Roots {
@@ -704,6 +836,140 @@ func TestC20(t *testing.T) {
 		if un := run.Judge(c20Case{Loader: loader, Source: "keysets"}, vs); len(un) > 0 {
 			vlib.Fail(t, un)
 			return
+		}
+	}
+
+	// sibling pool: per loader, the valid single-entry document of every action
+	// key (filled by (D) below, which runs first for that reason)
+	pool := map[string][]string{}
+	// pipelinePool: the members of pool the pipeline route accepts on their own
+	pipelinePool := map[string][]string{}
+
+	// (D) empty rule entries, and one entry per action key
+	for _, rl := range c20RuleLists {
+		for _, k := range yamlKeys(rl.entry) {
+			ok := false
+			var last c20Case
+			for variant := 0; variant < 3; variant++ {
+				inst := goInstance(k.typ, 1, always, true, variant)
+				// selectors: keep a single selector key (the loaders want exactly one)
+				pruneSelectors(inst)
+				entry := &ynode{kind: "map", closed: true, keys: []string{k.key}, vals: []*ynode{inst}}
+				c := c20Case{Loader: rl.loader, Source: "rules", YAML: rl.wrap(strings.TrimSpace(entry.yaml())), Expect: "one-rule", InjectedType: rl.listKey + "." + k.key}
+				last = c
+				run.Eval(evalKey(c), "action:"+rl.listKey)
+				if !judge(c) {
+					return
+				}
+				if _, err := c20Load(c.Loader, c.YAML); err == nil {
+					ok = true
+					pool[rl.loader] = append(pool[rl.loader], c.YAML)
+					break
+				}
+			}
+			if ok {
+				run.Count("actions_loaded", 1)
+			} else {
+				run.Count("actions_never_semantically_valid", 1)
+				run.Note("no semantically valid instance found for %s (last: %s)", last.InjectedType, strings.TrimSpace(last.YAML))
+			}
+		}
+	}
+	for _, loader := range []string{"compiler", "veneers"} {
+		for _, doc := range pool[loader] {
+			okAll := true
+			for slot := 0; slot < 2 && okAll; slot++ {
+				probe := c20Case{Loader: loader, Route: "pipeline", Siblings: []string{doc}, Pos: 1, Slots: []int{slot, slot}}
+				var perr error
+				_, _, panicked := vlib.Guard(func() { _, perr = c20LoadVia(probe, false) })
+				if panicked || perr != nil {
+					okAll = false
+				}
+			}
+			if okAll {
+				pipelinePool[loader] = append(pipelinePool[loader], doc)
+			}
+		}
+		run.Count("sibling_pool:"+loader, len(pool[loader]))
+		run.Count("sibling_pool_pipeline:"+loader, len(pipelinePool[loader]))
+		if len(pool[loader]) == 0 || len(pipelinePool[loader]) == 0 {
+			t.Fatalf("harness: no valid sibling document for the %s routes (pool %d, pipeline pool %d)", loader, len(pool[loader]), len(pipelinePool[loader]))
+		}
+	}
+	// routeLayouts: the fixed layouts every enumerated case is repeated through.
+	routeLayouts := func(loader string, i int) []c20Case {
+		sib := pool[loader][i%len(pool[loader])]
+		psib := pipelinePool[loader][i%len(pipelinePool[loader])]
+		kinds := [][]string{{"jsonschema"}, {"openapi"}, {"cue"}, {"openapi", "jsonschema"}}[i%4]
+		lang := []string{"go", "typescript", "python", "java", "php", "jsonschema", "openapi"}[i%7]
+		out := []c20Case{
+			{Route: "files"},
+			{Route: "files", Siblings: []string{sib}, Pos: 1},
+			{Route: "files", Siblings: []string{sib}, Pos: 0},
+		}
+		if loader == "compiler" {
+			out = append(out,
+				c20Case{Route: "readers", Siblings: []string{sib}, Pos: i % 2},
+				c20Case{Route: "pipeline", Kinds: kinds, Slots: []int{0}, Interp: i%2 == 0},
+				c20Case{Route: "pipeline", Kinds: kinds, Slots: []int{len(kinds)}, Interp: i%2 == 1},
+				c20Case{Route: "pipeline", Kinds: kinds, Siblings: []string{psib}, Pos: i % 2, Slots: []int{i % 2, (i + 1) % 2}},
+			)
+		} else {
+			out = append(out,
+				c20Case{Route: "pipeline", Lang: lang, Slots: []int{0}, Interp: i%2 == 0},
+				c20Case{Route: "pipeline", Lang: lang, Siblings: []string{psib}, Pos: i % 2, Slots: []int{i % 2, (i / 2) % 2}},
+			)
+		}
+		return out
+	}
+	sampledRoute := map[string]bool{}
+	viaRoutes := func(c c20Case, i int, label string) bool {
+		if c.Loader == "pipeline" {
+			return true
+		}
+		for _, lay := range routeLayouts(c.Loader, i) {
+			rc := c
+			rc.Route, rc.Siblings, rc.Pos, rc.Slots, rc.Kinds, rc.Lang, rc.Interp = lay.Route, lay.Siblings, lay.Pos, lay.Slots, lay.Kinds, lay.Lang, lay.Interp
+			run.Eval(evalKey(rc), label+":via-"+rc.Route)
+			if rc.Route == "pipeline" && len(rc.Siblings) > 0 && !sampledRoute[rc.Loader] {
+				sampledRoute[rc.Loader] = true
+				run.Sample(rc)
+			}
+			if !judge(rc) {
+				return false
+			}
+		}
+		return true
+	}
+	seq := 0
+	for _, rl := range c20RuleLists {
+		for _, empty := range []string{"{}", "{\"" + c20Unknown + "\": 1}", "null"} {
+			c := c20Case{Loader: rl.loader, Source: "rules", YAML: rl.wrap(empty), Expect: "reject-empty-rule", InjectedType: rl.listKey}
+			if empty == "null" {
+				c.InjectedType += ":null-entry"
+			}
+			run.Eval(evalKey(c), "empty_rule")
+			if !judge(c) {
+				return
+			}
+			if empty == "null" {
+				// listed finding (null entries are dropped by the decoder): not repeated through the routes
+				run.Count("null_entry_not_routed", 1)
+				continue
+			}
+			seq++
+			if !viaRoutes(c, seq, "empty_rule") {
+				return
+			}
+		}
+	}
+	// one entry per action key through the counting routes (the documents of the pool)
+	for _, loader := range []string{"compiler", "veneers"} {
+		for i, doc := range pool[loader] {
+			c := c20Case{Loader: loader, Source: "rules", YAML: doc}
+			if !viaRoutes(c, i, "action") {
+				return
+			}
 		}
 	}
 
@@ -723,8 +989,11 @@ func TestC20(t *testing.T) {
 	injections := 0
 	for _, b := range bases {
 		c := c20Case{Loader: b.loader, Source: b.source, YAML: b.root.yaml()}
-		run.Eval(vlib.HashBytes([]byte(c.Loader), []byte(c.YAML)), "full_instance:"+b.source)
+		run.Eval(evalKey(c), "full_instance:"+b.source)
 		if !judge(c) {
+			return
+		}
+		if !viaRoutes(c, injections, "full_instance") {
 			return
 		}
 		var maps []struct {
@@ -736,59 +1005,22 @@ func TestC20(t *testing.T) {
 			inj, ptr, typ := c20Inject(b.root, i)
 			ci := c20Case{Loader: b.loader, Source: b.source, YAML: inj.yaml(), Injected: true, InjectedAt: ptr, InjectedType: typ}
 			injections++
-			run.Eval(vlib.HashBytes([]byte(ci.Loader), []byte(ci.YAML)), "exhaustive_injection:"+b.loader)
+			run.Eval(evalKey(ci), "exhaustive_injection:"+b.loader)
 			if injections%37 == 1 {
 				run.Sample(ci)
 			}
 			if !judge(ci) {
 				return
 			}
+			if !viaRoutes(ci, injections, "exhaustive_injection") {
+				return
+			}
 		}
 	}
 	run.Count("exhaustive_injection_nodes", injections)
 
-	// (D) empty rule entries, and one entry per action key
-	for _, rl := range c20RuleLists {
-		for _, empty := range []string{"{}", "{\"" + c20Unknown + "\": 1}", "null"} {
-			c := c20Case{Loader: rl.loader, Source: "rules", YAML: rl.wrap(empty), Expect: "reject-empty-rule", InjectedType: rl.listKey}
-			if empty == "null" {
-				c.InjectedType += ":null-entry"
-			}
-			run.Eval(vlib.HashBytes([]byte(c.Loader), []byte(c.YAML)), "empty_rule")
-			if !judge(c) {
-				return
-			}
-		}
-		for _, k := range yamlKeys(rl.entry) {
-			ok := false
-			var last c20Case
-			for variant := 0; variant < 3; variant++ {
-				inst := goInstance(k.typ, 1, always, true, variant)
-				// selectors: keep a single selector key (the loaders want exactly one)
-				pruneSelectors(inst)
-				entry := &ynode{kind: "map", closed: true, keys: []string{k.key}, vals: []*ynode{inst}}
-				c := c20Case{Loader: rl.loader, Source: "rules", YAML: rl.wrap(strings.TrimSpace(entry.yaml())), Expect: "one-rule", InjectedType: rl.listKey + "." + k.key}
-				last = c
-				run.Eval(vlib.HashBytes([]byte(c.Loader), []byte(c.YAML)), "action:"+rl.listKey)
-				if !judge(c) {
-					return
-				}
-				if _, err := c20Load(c.Loader, c.YAML); err == nil {
-					ok = true
-					break
-				}
-			}
-			if ok {
-				run.Count("actions_loaded", 1)
-			} else {
-				run.Count("actions_never_semantically_valid", 1)
-				run.Note("no semantically valid instance found for %s (last: %s)", last.InjectedType, strings.TrimSpace(last.YAML))
-			}
-		}
-	}
-
 	// random sub-documents
-	loaders := []string{"pipeline", "compiler", "veneers"}
+	loaders := []string{"pipeline", "compiler", "compiler", "veneers", "veneers"}
 	rapid.Check(t, func(rt *rapid.T) {
 		loader := rapid.SampledFrom(loaders).Draw(rt, "loader")
 		source := rapid.SampledFrom([]string{"go-types", "schema"}).Draw(rt, "source")
@@ -812,20 +1044,91 @@ func TestC20(t *testing.T) {
 		c := c20Case{Loader: loader, Source: source, YAML: root.yaml()}
 		labels := []string{"random:" + source, "loader:" + loader}
 		nontrivial := strings.Count(c.YAML, "{") >= 3
-		if rapid.Bool().Draw(rt, "inject") {
+		mode := rapid.SampledFrom([]string{"plain", "inject", "inject", "empty-entry"}).Draw(rt, "mode")
+		switch {
+		case mode == "inject":
 			inj, ptr, typ := c20Inject(root, rapid.IntRange(0, 1000).Draw(rt, "injectidx"))
 			if inj != nil {
 				c = c20Case{Loader: loader, Source: source, YAML: inj.yaml(), Injected: true, InjectedAt: ptr, InjectedType: typ}
 				labels = append(labels, "random_injection", fmt.Sprintf("injection_depth:%d", strings.Count(ptr, "/")))
 				nontrivial = ptr != ""
 			}
+		case mode == "empty-entry" && loader != "pipeline":
+			// an entry with no recognised action at a random index of a rule list, next to the drawn entries
+			listKeys := []string{"passes"}
+			if loader == "veneers" {
+				listKeys = []string{"builders", "options"}
+			}
+			listKey := rapid.SampledFrom(listKeys).Draw(rt, "emptylist")
+			entry := &ynode{kind: "map", closed: true}
+			if rapid.Bool().Draw(rt, "emptywithunknown") {
+				entry.keys, entry.vals = []string{c20Unknown}, []*ynode{{kind: "leaf", leaf: 1}}
+			}
+			cp := root.clone()
+			var list *ynode
+			for i, k := range cp.keys {
+				if k == listKey && cp.vals[i].kind == "list" {
+					list = cp.vals[i]
+				}
+			}
+			if list == nil {
+				list = &ynode{kind: "list"}
+				cp.keys = append(cp.keys, listKey)
+				cp.vals = append(cp.vals, list)
+			}
+			at := rapid.IntRange(0, len(list.items)).Draw(rt, "emptyat")
+			list.items = append(list.items[:at], append([]*ynode{entry}, list.items[at:]...)...)
+			c = c20Case{Loader: loader, Source: source, YAML: cp.yaml(), Expect: "reject-empty-rule", InjectedType: listKey}
+			labels = append(labels, "random_empty_entry", fmt.Sprintf("empty_entry_among:%d", len(list.items)-1))
+			nontrivial = true
+		}
+		if loader != "pipeline" {
+			route := rapid.SampledFrom(append([]string{""}, c20Routes[loader]...)).Draw(rt, "route")
+			if route != "" {
+				c.Route = route
+				from := pool[loader]
+				if route == "pipeline" {
+					from = pipelinePool[loader]
+					c.Interp = rapid.Bool().Draw(rt, "interp")
+					if loader == "compiler" {
+						c.Kinds = rapid.SliceOfN(rapid.SampledFrom(c20InputKinds), 1, 2).Draw(rt, "kinds")
+					} else {
+						c.Lang = rapid.SampledFrom([]string{"go", "typescript", "python", "java", "php", "jsonschema", "openapi"}).Draw(rt, "lang")
+					}
+				}
+				nsib := rapid.IntRange(0, 2).Draw(rt, "siblings")
+				for i := 0; i < nsib; i++ {
+					c.Siblings = append(c.Siblings, from[rapid.IntRange(0, len(from)-1).Draw(rt, "sibling")])
+				}
+				c.Pos = rapid.IntRange(0, nsib).Draw(rt, "pos")
+				if route == "pipeline" {
+					c.Slots = rapid.SliceOfN(rapid.IntRange(0, 2), nsib+1, nsib+1).Draw(rt, "slots")
+					c20NormalizeRoute(&c)
+					if nsib > 0 {
+						// siblings that do not pass together through this very pipeline are dropped
+						var cerr error
+						_, _, cpanic := vlib.Guard(func() { _, cerr = c20LoadVia(c, false) })
+						if cpanic || cerr != nil {
+							run.Count("pipeline_siblings_dropped", 1)
+							target := c.Slots[c.Pos]
+							c.Siblings, c.Pos, c.Slots = nil, 0, []int{target}
+						}
+					}
+				}
+				labels = append(labels, "route:"+route, fmt.Sprintf("route_files:%d", len(c.Siblings)+1))
+				if route == "pipeline" {
+					labels = append(labels, fmt.Sprintf("pipeline_target_slot:%s:%d", loader, c.Slots[c.Pos]))
+				}
+			} else {
+				labels = append(labels, "route:plain")
+			}
 		}
 		key := uint64(0)
 		if nontrivial {
-			key = vlib.HashBytes([]byte(c.Loader), []byte(c.YAML))
+			key = evalKey(c)
 		}
 		run.Eval(key, labels...)
-		if c.Injected && strings.Count(c.InjectedAt, "/") >= 3 && len(c.YAML) < 1500 {
+		if (c.Injected && strings.Count(c.InjectedAt, "/") >= 3 || c.Route != "") && len(c.YAML) < 1500 {
 			run.Sample(c)
 		}
 		vs := skipPanics(run, c20Check(c))
